@@ -203,7 +203,10 @@ def compile_col_expr(
                 descending=descending,
                 nulls_last=[nl if nl is not None else False for nl in nulls_last],
             )
-            value = value.sort_by(inv_permutation)
+            # (`gather` instead of `sort_by`: the polars optimizer drops a trailing `sort_by`
+            # when it considers the order of the frame unspecified, e.g. after an unordered
+            # `group_by`, although it aligns this column with the other ones)
+            value = value.gather(inv_permutation.arg_sort())
 
         return value
 
